@@ -1,8 +1,13 @@
 package main
 
-// Engine `batch`, impl-side cases without a model counterpart (lines starting with '#'):
+// Engine `batch`, cases around the middleware-free model:
 //
-//	#batch.mw <chain> <request>      the real executor with batch-item middlewares installed
+//	batch.mw <chain> <request>       the real executor with batch-item middlewares installed; compared with the
+//	                                 model's generic loop (`Batch.loopG`, theorems C09.chain_loop_*) and checked
+//	                                 against an independent prediction
+//
+// and impl-side cases without a model counterpart (lines starting with '#'):
+//
 //	#batch.http <variant>            handleMessageError through kmipserver.NewHTTPHandler (half-decoded request)
 //	#batch.nilreq <variant>          handleMessageError(nil request) through a real kmipserver.Server, in a child process
 //
@@ -182,7 +187,8 @@ func bmwPredict(r *bReq, chain []bmwStage) (failed []bool, calls []int, enter []
 }
 
 func bmwCase(ctx *Ctx, r *bReq, chain []bmwStage, origin string) {
-	line := "#batch.mw " + bmwRenderChain(chain) + " " + r.encode()
+	line := "batch.mw " + bmwRenderChain(chain) + " " + r.encode()
+	impl := ""
 	ctx.current = line
 	viol := func(oracle, key, detail string) {
 		ctx.Res.Violate(report.Violation{Property: "C09", Oracle: oracle, Key: "batch.mw:" + key, Detail: detail, Line: line})
@@ -208,7 +214,11 @@ func bmwCase(ctx *Ctx, r *bReq, chain []bmwStage, origin string) {
 		resp, p := guard("HandleRequest", func() *kmip.ResponseMessage { return e.HandleRequest(context.Background(), msg) })
 		if p != "" {
 			viol("no-panic", "panic "+panicKey(p), "HandleRequest panicked: "+p)
+			impl = "panic " + panicKey(p)
 			break
+		}
+		if round == 0 {
+			impl = bmwRender(resp, log)
 		}
 		if st.bad != "" || log.bad != "" {
 			ctx.Res.Fail(st.bad + log.bad + ": " + line)
@@ -273,10 +283,28 @@ func bmwCase(ctx *Ctx, r *bReq, chain []bmwStage, origin string) {
 			}
 		}
 	}
-	ctx.Add(line, "", false, "C09")
+	ctx.Add(line, impl, len(r.items) > 1, "C09")
 	if origin != "" {
 		ctx.Res.Count("batch.mw." + origin)
 	}
+}
+
+// bmwRender: version, count, per item operation:id:status, and the items the outermost stage was entered for.
+func bmwRender(resp *kmip.ResponseMessage, log *bmwLog) string {
+	if resp == nil {
+		return "ok nil-response"
+	}
+	full := renderResp(resp, &reqState{})
+	full = full[:strings.Index(full, " calls=")]
+	entered := "-"
+	if len(log.enter) > 0 && len(log.enter[0]) > 0 {
+		p := make([]string, len(log.enter[0]))
+		for i, c := range log.enter[0] {
+			p[i] = strconv.Itoa(c)
+		}
+		entered = strings.Join(p, ".")
+	}
+	return full + " entered=" + entered
 }
 
 func bmwRandomChain(r *rng.R, n int) []bmwStage {
@@ -478,8 +506,8 @@ func replayBatchExtras(ctx *Ctx) {
 	for _, l := range ctx.Replay {
 		l = strings.TrimSpace(l)
 		switch {
-		case strings.HasPrefix(l, "#batch.mw "):
-			f := strings.SplitN(strings.TrimPrefix(l, "#batch.mw "), " ", 2)
+		case strings.HasPrefix(l, "batch.mw "):
+			f := strings.SplitN(strings.TrimPrefix(l, "batch.mw "), " ", 2)
 			if len(f) != 2 {
 				continue
 			}
